@@ -323,6 +323,18 @@ def check(P, ctx, name, cond, params, axioms=()):
     if r == z3.unsat:
         P.obligation(name, "holds", symbolic=True, **({"contract_instances": len(axioms)} if axioms else {}))
     else:
+        if params.get("kind") in ("scale", "loc", "zscore", "apply"):
+            m = ctx.solver.model()
+            shp = tuple(params["shape"])
+            try:
+                xs = np.zeros(shp)
+                for i in np.ndindex(shp):
+                    v = m.eval(z3.Real("x_" + "_".join(map(str, i))), model_completion=True)
+                    xs[i] = float(v.numerator_as_long()) / float(v.denominator_as_long()) if z3.is_rational_value(v) else float(v.approx(12).as_fraction())
+                if np.all(np.abs(xs) < 1e6):
+                    params = dict(params, x=xs.tolist())
+            except Exception:  # noqa: BLE001
+                pass
         if params.get("kind") in ("equiv", "zequiv"):
             m = ctx.solver.model()
             n = params["n"]
